@@ -146,6 +146,7 @@ def run(chk):
     r = chk.prove()
     impl, model = build()
     chk.cov['trusted_base'] += [
+        'harness/c12_glue.c (MIR_scan_string / MIR_write_with_func / MIR_read_with_func over memory, error function longjmps)',
         'tools/tr_c12_params.py (prints the _REDUCE_* / hash constants from a C program compiled against the tree)',
         'extraction: ExtrOcamlBasic only, no Extract Constant/Inductive of our own; ocaml/driver_c12.ml (hex parse/print)',
         'harness/c12_reduce.c (memory reader/writer, filling allocator); gcc -fsanitize=address,undefined '
@@ -232,11 +233,13 @@ def run(chk):
     # big streams: truncation / extension / a few substitutions of the multi-buffer encodings
     for k, d, e in encs:
         if len(d) >= P['BUF_LEN'] - 1 and len(e) < 200000:
-            for cut in (len(e) - 1, len(e) // 2):
+            cuts = (len(e) - 1, len(e) // 2) if not quick else (rng.choice([len(e) - 1, len(e) - 9, len(e) // 2]),)
+            for cut in cuts:
                 dl.append(('dec 1 0 ' + hx(e[:cut]), 'trunc', d))
             dl.append(('dec 1 0 ' + hx(e + b'\0'), 'ext', d))
             # a random position, one byte of the stored hash, the 0 tag before it, the last body byte
-            for i in [rng.randrange(len(e))] + [len(e) - 1 - rng.randrange(8), len(e) - 9, len(e) - 10]:
+            poss = [rng.randrange(len(e)), len(e) - 1 - rng.randrange(8), len(e) - 9, len(e) - 10]
+            for i in (poss if not quick else [poss[0], rng.choice(poss[1:])]):
                 dl.append(('dec 1 0 ' + hx(e[:i] + bytes([e[i] ^ (1 << rng.randrange(8))]) + e[i + 1:]), 'sub', d))
     lines = [x[0] for x in dl]
     costs = [2000 + len(l) + 8 * (len(d) if d is not None else len(l) // 2) for l, _, d in dl]
@@ -269,6 +272,11 @@ def run(chk):
         if y.startswith('O') or y == 'NOFUEL':
             tie_broken.append(('model-oob', [l], 'model of the fixed decoder reports %s' % y))
 
+    # ---------------- 2b. the glue in mir.c
+    t0 = time.time()
+    glue_phase(chk, P, model, bad, tie_broken)
+    chk.log('glue: %.1fs' % (time.time() - t0))
+
     # ---------------- 3. decide
     # report at most two cases per (kind, sanitizer error class), the shortest first
     def klass(kind, what):
@@ -299,12 +307,109 @@ def run(chk):
         elif not r['ok']:
             chk.proof_broken(r, searched='%d encodes and %d decodes agree between model and implementation, no sanitizer '
                              'report, every round trip exact' % (len(el), len(lines)))
+    if not quick and r['ok']:
+        # independent re-check of the compiled proofs and their axioms
+        t0 = time.time()
+        rc, out, err = vlib.sh(['timeout', '1200', 'coqchk', '-o', '-silent', '-Q', '.', 'MirV', 'MirV.Properties_C12'],
+                               cwd=vlib.COQDIR)
+        okc = rc == 0 and 'Axioms: <none>' in (out + err)
+        chk.notes.append('coqchk MirV.Properties_C12: rc=%d, %s (%.0fs)' % (
+            rc, 'Axioms: <none>' if okc else (out + err)[-400:], time.time() - t0))
+        chk.log('coqchk: %s' % ('ok, no axioms' if okc else 'FAILED'))
+        if not okc and not bad and not tie_broken:
+            chk.finding('coqchk', dict(rc=rc, tail=(out + err)[-2000:]), 'coqchk does not accept Properties_C12 or reports axioms',
+                        no_input=True)
     chk.cov['rule'] = ('encoder inputs run through reduce_encode (ASan+UBSan, NDEBUG) and the extracted Coq encoder, outputs '
                        'compared byte for byte; decoder streams (valid outputs, all single-byte substitutions/deletions/'
                        'truncations/extensions of small encodings, sampled ones of larger encodings, structure-aware rewrites '
                        'of ref_len/ref_ind/sym_len incl. BUF_LEN-1/BUF_LEN/BUF_LEN+1 and the malformed 5-byte uint, crafted '
                        'bounds-check streams) run through reduce_decode and the extracted Coq decoder, verdict and output '
                        'compared; a case is non-trivial unless it is an encoder input shorter than 4 bytes; distinct by case text')
+
+
+def glue_module(n, name='m'):
+    return ('%s: module\nd1: string "%s"\nf: func i64, i64:a\n local i64:r\n add r, a, 1\n ret r\n endfunc\nendmodule\n'
+            % (name, 'a' * n)).encode()
+
+
+def glue_phase(chk, P, model, bad, tie_broken):
+    """mir.c's use of the codec: MIR_write_with_func output is exactly the model's encoding of the
+    uncompressed binary; MIR_read_with_func reads it back; every stream the model rejects raises
+    MIR_binary_io_error (no silent acceptance, no sanitizer report)."""
+    glue = vlib.build_harness('c12_glue', ['c12_glue.c'], variant='asan', units=('mir',),
+                              defs=['-fno-sanitize=alignment'])
+    rng = chk.rng('glue')
+    B = P['BUF_LEN']
+    texts = [glue_module(n, 'm%d' % i) for i, n in enumerate([0, 3, 40, rng.randrange(100, 3000), 70000])]
+    # a module whose uncompressed binary is exactly BUF_LEN bytes: adjust the string length
+    n = B - 144
+    exact = None
+    for it in range(6):
+        w = run_shard(glue, ['write ' + glue_module(n).hex()], ENV, 600)[0]
+        if not w.startswith('W '):
+            break
+        d = run_shard(model, ['dec 1 0 ' + w[2:]], None, 600)[0]
+        L = (len(d) - 2) // 2 if d.startswith('A ') else -1
+        if L == B:
+            exact = glue_module(n)
+            break
+        if L < 0:
+            break
+        n += B - L
+    if exact is not None:
+        texts.append(exact)
+    else:
+        chk.notes.append('glue: could not build a module with uncompressed size BUF_LEN')
+    ws = run_par(glue, ['write ' + t.hex() for t in texts], ENV)
+    cases = []   # (line, kind, expect_ok or None)
+    for t, w in zip(texts, ws):
+        chk.count(('glue-write', t), nontrivial=True); chk.dist('cases', 'glue:write')
+        if not w.startswith('W '):
+            bad.append(('glue-write', ['write ' + t.hex()], 'MIR_write_with_func fails on a valid module: ' + w))
+            continue
+        s_ = bytes.fromhex(w[2:])
+        d = run_shard(model, ['dec 1 0 ' + hx(s_)], None, 600)[0]
+        if not d.startswith('A '):
+            bad.append(('glue-write', ['write ' + t.hex(), 'dec 1 0 ' + hx(s_)],
+                        'the binary written by MIR_write_with_func is not a valid compressed stream (model: %s)' % d[:20]))
+            continue
+        e = run_shard(model, ['enc ' + d[2:]], None, 600)[0]
+        if e != 'E ' + hx(s_):
+            tie_broken.append(('glue-enc', ['write ' + t.hex()], 'MIR_write output differs from encode(uncompressed binary)'))
+        exact_p = (len(d) - 2) // 2 % B == 0
+        cases.append(('read ' + hx(s_), 'valid-exact' if exact_p else 'valid', s_))
+        muts = [('prefix', b'XYZ' + s_[3:]), ('prefix', b'MIS' + s_[3:]), ('prefix', s_[:2] + b'r' + s_[3:]),
+                ('trunc', s_[:-1]), ('trunc', s_[:-9]), ('trunc', s_[:len(s_) // 2]), ('trunc', s_[:3]), ('trunc', b''),
+                ('ext', s_ + b'\0'), ('ext', s_ + s_[-9:])]
+        if (len(d) - 2) // 2 < B:
+            # single buffer: the hash is checked before the first byte reaches the binary reader
+            for _ in range(40 if len(s_) < 3000 else 6):
+                i = rng.randrange(len(s_))
+                muts.append(('sub', s_[:i] + bytes([s_[i] ^ (1 << rng.randrange(8))]) + s_[i + 1:]))
+        # the trailer (0 tag + stored hash): the data itself stays intact.  (Substitutions inside a
+        # multi-buffer stream are not tried here: full buffers reach the binary reader before the
+        # trailer is checked - the format's stated limit - and what the reader does with damaged
+        # *data* is C11's subject, not the compression layer's.)
+        for i in (len(s_) - 1, len(s_) - 5, len(s_) - 8, len(s_) - 9):
+            muts.append(('sub-trailer', s_[:i] + bytes([s_[i] ^ (1 << rng.randrange(8))]) + s_[i + 1:]))
+        for k, m in muts:
+            cases.append(('read ' + hx(m), k, m))
+    rl = [c[0] for c in cases]
+    gi = run_par(glue, rl, ENV)
+    gm = run_par(model, ['dec 1 0 ' + hx(c[2]) for c in cases])
+    for (l, kind, m), x, y in zip(cases, gi, gm):
+        chk.count(l, nontrivial=True); chk.dist('cases', 'glue:' + kind); chk.dist('glue_verdict', x.split()[0])
+        if x.startswith('CRASH'):
+            bad.append(('glue-crash', [l], 'MIR_read_with_func aborts under ASan/UBSan on a %s stream: %s' % (kind, x)))
+        elif kind.startswith('valid') and not x.startswith('OK'):
+            bad.append(('glue-' + kind, [l, 'dec 1 0 ' + hx(m)],
+                        'MIR_read_with_func rejects the binary MIR_write_with_func just wrote (%s; uncompressed size %s a multiple of BUF_LEN): %s'
+                        % (kind, 'is' if kind == 'valid-exact' else 'not', x)))
+        elif y == 'R' and x.startswith('OK'):
+            bad.append(('glue-accepts', [l, 'dec 1 0 ' + hx(m)],
+                        'MIR_read_with_func returns normally on a %s stream that reduce_decode rejects (decoder failure not reported)' % kind))
+        elif y.startswith('A') and kind != 'valid' and kind != 'valid-exact' and not x.startswith('OK') and not x.startswith('ERR'):
+            tie_broken.append(('glue', [l], 'unexpected glue result %s' % x))
 
 
 def model_views(model, ls):
@@ -345,7 +450,18 @@ def replay(chk, path):
     impl, model = build()
     ls = j['replay'].get('lines', [])
     rc = 0
+    glue = None
     for l in ls:
+        if l.startswith('read ') or l.startswith('write '):
+            glue = glue or vlib.build_harness('c12_glue', ['c12_glue.c'], variant='asan', units=('mir',),
+                                              defs=['-fno-sanitize=alignment'])
+            a = run_shard(glue, [l], ENV, 600)[0]
+            print('case :', l[:200] + ('...' if len(l) > 200 else '')); print('glue :', a[:300])
+            kind = j['replay'].get('kind', '')
+            good = a.startswith('ERR') if kind == 'glue-accepts' else (a.startswith('OK') or a.startswith('W '))
+            if not good:
+                rc = 1
+            continue
         a = run_shard(impl, [l], ENV, 600)[0]
         b = run_shard(model, [l], None, 600)[0]
         print('case :', l[:200] + ('...' if len(l) > 200 else ''))
